@@ -119,14 +119,18 @@ PROPS = {
     },
     "C26": {
         "level": "proof",
-        "verus": ["execution"],
-        "explanation": "KERNEL ONLY. Verus proves, for every schema / selection / variables map, three decision functions of the executor against the specification text: "
+        "verus": ["execution", "collect_fields"],
+        "explanation": "KERNEL (the selection-collection half of the executor). Unit collect_fields: Verus proves that the executor's collect_fields computes the spec's CollectFields -- for every schema, document (fragments may even be cyclic), variables map, "
+                       "object type and selection set, with visitedFragments / groupedFields threaded through as in the spec: @skip / @include, response keys (alias else name) grouped in order of first appearance, each named fragment expanded at most once and only if it exists and "
+                       "DoesFragmentTypeApply, inline fragments unless their type condition does not apply. The specification function carries a fuel for fragment expansion; the contract holds for EVERY fuel >= the number of defined-but-unvisited fragments "
+                       "(each expansion marks one more fragment visited, so such fuel cannot run out: no acyclicity assumption). Unit execution: Verus proves, for every schema / selection / variables map, three decision functions of the executor against the specification text: "
                        "try_nullify (Handling Field Errors: a value passes through; a propagated null stops at the first nullable position and continues through non-null ones, for every Type), "
                        "does_fragment_type_apply == DoesFragmentTypeApply (same object type / objectType implements the interface / objectType is a member of the union; false for anything else), "
                        "eval_if_arg == the value of the `if` argument of @skip / @include (Boolean literal, or a variable whose coerced value is a JSON boolean; nothing otherwise), and Selection::directives. "
                        "Bodies are re-extracted from /repo on every run.",
         "assumptions": ["IndexMap / IndexSet / JsonMap lookups behave as maps / sets keyed by the name's text; DirectiveList::get returns the first directive with that name; specified_argument_by_name the argument with that name (shim contracts)"],
-        "not_decided": ["the property's main clause: the response equals that of a reference executor (CollectFields' loop and grouping, CompleteValue, list handling, coerce_argument_values, error paths, data == null exactly when a null reaches the root)",
+        "not_decided": ["the rest of the main clause: ExecuteSelectionSet / ExecuteField / CompleteValue (async), list handling, coerce_argument_values, error paths, data == null exactly when a null reaches the root",
+                        "termination of collect_fields' recursion (exec_allows_no_decreases_clause; it follows from the counting argument of the contract but is not checked)",
                         "that the executor calls these three functions in the right places (call sites are async code, not extracted)"],
     },
     "C29": {
